@@ -62,6 +62,12 @@ CHECKS["C05"] = dict(level="model_checking", design="DESIGN.md §6 C05, §8",
          "poisoned so that a use after redeem is deterministic.",
     note="TLA+ has no notion of the Go memory model: the race half is instrumentation by the race detector (DESIGN.md §8). Reports outside package validate do not affect the verdict.")
 
+CHECKS["C08"] = dict(level="model_checking", design="DESIGN.md §6 C08, §3.1 Api (long-lived handles)",
+    technique="TLC-enumerated value sequences driven through one long-lived validator per definition; each call recorded and validated by the TLA+ monitor Trace_Api.tla (Stateless: equals a freshly built validator; Repeatable: equals memo[h][x])",
+    text="For seeded schema / parameter / header definitions, every value-index sequence of length <= 2 (quick) / 3 (thorough) enumerated by TLC and a long seeded sequence are run on a single validator built without "
+         "recycling; Trace_Api.tla keeps memo[h][x] and requires every outcome to equal both the fresh-validator outcome and the first outcome for that value.",
+    note="Outcome = verdict + message set (digest). The spec's contribution is the memo/stateless monitor; detection rests on the definitions and value tables (nested arrays, recovered format-checker panics).")
+
 NOT_YET = {}
 
 
